@@ -487,6 +487,108 @@ theorem C12_pool_nocache_agegroup_target {s : DState} {pg : PoolG} {p : People} 
 
 /-! ### `validate_beta` -/
 
+/-! ### Round 5: the plural container `MixingPools`, and the transmissibility in force -/
+
+/-- `MixingPools.remove_uids` forwards the removal to every sub-pool, `MixingPools.step` steps every sub-pool. -/
+theorem C12_pools_forward_as_modelled : Gen.poolsRemoveForwards = true ∧ Gen.poolsStepForwards = true := by decide
+
+theorem group_remove_explicit {g : Group} {dead l : List Nat} (h : g.remove dead = .explicit l) :
+    ∀ u ∈ l, u ∉ dead := by
+  cases g with
+  | explicit l0 =>
+    simp only [Group.remove, Group.explicit.injEq] at h
+    subst h
+    intro u hu
+    simpa using (List.mem_filter.mp hu).2
+  | all => simp [Group.remove] at h
+  | age g => simp [Group.remove] at h
+  | fn f => simp [Group.remove] at h
+
+/-- **The removal reaches every sub-pool.** After `MixingPools.remove_uids(dead)` no sub-pool of the container — whatever the
+    shape of the grid — lists a removed agent in an explicit source or destination group. -/
+theorem C12_pools_remove_reaches_every_pool (pools : List PoolG) (dead : List Nat) {pg : PoolG}
+    (h : pg ∈ poolsRemove pools dead) {l : List Nat} :
+    (pg.src = .explicit l → ∀ u ∈ l, u ∉ dead) ∧ (pg.dst = .explicit l → ∀ u ∈ l, u ∉ dead) := by
+  simp only [poolsRemove, List.mem_map] at h
+  obtain ⟨q, _, rfl⟩ := h
+  exact ⟨fun hs => group_remove_explicit (g := q.src) (by simpa [PoolG.remove] using hs),
+         fun hd => group_remove_explicit (g := q.dst) (by simpa [PoolG.remove] using hd)⟩
+
+theorem poolStep_mem_dst {s : DState} {pl : Pool} {r : Nat → Rat} {u : Nat} (h : u ∈ poolStep s pl r) : u ∈ pl.dst := by
+  unfold poolStep at h
+  by_cases h1 : pl.beta = 0
+  · simp [h1] at h
+  · by_cases h2 : (pl.src.isEmpty || pl.dst.isEmpty) = true
+    · simp [h1, h2] at h
+    · rw [if_neg h1, if_neg h2] at h
+      exact (List.mem_filter.mp h).1
+
+/-- **No sub-pool infects a removed agent.** A new case of any sub-pool whose destination is an explicit uid list is a listed
+    agent that was not removed (any state, any population, any random numbers). -/
+theorem C12_pools_target_not_removed {s : DState} {pools : List PoolG} {dead : List Nat} {pg : PoolG} {ti : Int}
+    {p : People} {r : Nat → Rat} {u : Nat} {l : List Nat} (h : pg ∈ poolsRemove pools dead) (hd : pg.dst = .explicit l)
+    (hu : u ∈ (poolStepG s pg ti p r).2) : u ∈ l ∧ u ∉ dead := by
+  have hmem : u ∈ l := by
+    have h2 := poolStep_mem_dst (show u ∈ poolStep s _ r from hu)
+    simpa [hd, Group.resolve] using h2
+  exact ⟨hmem, (C12_pools_remove_reaches_every_pool pools dead h).2 hd u hmem⟩
+
+/-- … and the source group a sub-pool averages over contains no removed agent either. -/
+theorem C12_pools_source_not_removed {pools : List PoolG} {dead : List Nat} {pg : PoolG} {ti : Int} {p : People} {l : List Nat}
+    (h : pg ∈ poolsRemove pools dead) (hs : pg.src = .explicit l) :
+    (pg.src.resolve ti p).2 = l ∧ ∀ u ∈ l, u ∉ dead := by
+  refine ⟨by simp [hs, Group.resolve], (C12_pools_remove_reaches_every_pool pools dead h).1 hs⟩
+
+/-- `MixingPools.step`: the cases reported by the container are, pool by pool, those of the sub-pools. -/
+theorem C12_pools_step_all (s : DState) (ti : Int) (p : People) (r : Nat → Rat) :
+    ∀ (pools : List PoolG), (poolsStep s ti p r pools).2 = pools.map (fun pg => (poolStepG s pg ti p r).2)
+  | [] => rfl
+  | pg :: rest => by simp [poolsStep, C12_pools_step_all s ti p r rest]
+
+/-- a 2 × 1 grid sharing the destination list [1, 3, 2]: after agent 3 is removed, neither sub-pool lists it -/
+example : (poolsRemove [{ src := .explicit [0, 3], dst := .explicit [1, 3, 2], beta := 1/2, contacts := fun _ => 1 },
+                        { src := .all, dst := .explicit [1, 3, 2], beta := 1/2, contacts := fun _ => 1 }] [3]).map
+            (fun pg => ((pg.src.resolve 0 ⟨[0, 1, 2], fun _ => 20⟩).2, (pg.dst.resolve 0 ⟨[0, 1, 2], fun _ => 20⟩).2))
+          = [([0], [1, 2]), ([0, 1, 2], [1, 2])] := by decide +kernel
+
+/-- `TimePar.set` stores every supplied value — the test is "the argument is not None", whatever the value (0 included). -/
+theorem gen_timeparSetStores (n z : Bool) : Gen.timeparSetStores n z = !n := by
+  cases n <;> cases z <;> rfl
+
+/-- `beta *= f`, `beta * f`, `f * beta`, `beta /= g` go through `set(v=…)`. -/
+theorem C12_timepar_scaling_as_modelled :
+    ("__imul__", "self.set(v=self.v * other)") ∈ Gen.timeparScaling ∧ ("__mul__", "self.asnew().set(v=self.v * other)") ∈ Gen.timeparScaling ∧
+    ("__rmul__", "self.asnew().set(v=other * self.v)") ∈ Gen.timeparScaling ∧ ("__itruediv__", "self.set(v=self.v / other)") ∈ Gen.timeparScaling := by
+  decide
+
+/-- **The beta in force is the beta that was set**, for EVERY value, zero included. -/
+theorem C12_beta_set_takes_value (old x : Rat) : setBase old (some x) = x := by
+  simp [setBase, gen_timeparSetStores]
+
+/-- every user action on a beta yields what it denotes … -/
+theorem C12_beta_op_denotes (v : Rat) (op : BetaOp) : op.apply v = op.denote v := by
+  cases op <;> simp [BetaOp.apply, BetaOp.denote, scaleBase, C12_beta_set_takes_value]
+
+/-- … and so does every history of actions (any length, any values). -/
+theorem C12_beta_history_denotes : ∀ (ops : List BetaOp) (v : Rat), ops.foldl BetaOp.apply v = ops.foldl BetaOp.denote v
+  | [], _ => rfl
+  | op :: ops, v => by simp [List.foldl, C12_beta_op_denotes, C12_beta_history_denotes ops]
+
+/-- **No infection crosses a transmissibility that was set to zero**: a direction whose beta was set to 0, or scaled by 0,
+    produces no event on any edge list, and a pool whose beta was scaled by 0 infects nobody. -/
+theorem C12_beta_set_zero_silent (s : DState) (i : Nat) (n : Net) (old : Rat) (pl : Pool) (r : Nat → Rat) :
+    dirEvents s i { n with b0 := setBase old (some 0) } .fwd = [] ∧ dirEvents s i { n with b1 := scaleBase old 0 } .bwd = [] ∧
+    poolStep s { pl with beta := scaleBase old 0 } r = [] := by
+  refine ⟨C12_zero_beta_direction_silent _ _ _ _ ?_, C12_zero_beta_direction_silent _ _ _ _ ?_, ?_⟩
+  · simp [Net.b, C12_beta_set_takes_value]
+  · simp [Net.b, scaleBase, C12_beta_set_takes_value]
+  · simp [poolStep, scaleBase, C12_beta_set_takes_value]
+
+/-- non-vacuity: a default of 1/20 set to 0 is 0; 3/10 scaled by 0 is 0; an argument that is not supplied keeps the value; a
+    history ×1/2, set 0, set 4/5 ends at 4/5 -/
+example : setBase (1/20) (some 0) = 0 ∧ scaleBase (3/10) 0 = 0 ∧ setBase (1/20) none = 1/20 ∧
+    [BetaOp.scale (1/2), .set 0, .set (4/5)].foldl BetaOp.apply (4/5) = 4/5 := by decide +kernel
+
 /-- A scalar beta is applied to both directions of every network. -/
 theorem C12_validateBeta_scalar (β : Rat) (keys : List String) (k : String) (hk : k ∈ keys) :
     ∃ m, validateBeta (.scalar β) keys = .ok m ∧ betaPair m k = .ok (β, β) := by
